@@ -1,6 +1,7 @@
 package props
 
 import (
+	"os"
 	"fmt"
 	"strings"
 
@@ -15,8 +16,8 @@ func C18(p *load.Prog, r *report.Report) {
 	if r.Tier == "thorough" {
 		unroll = 6
 	}
-	r.Explanation = fmt.Sprintf("E1 on Scalar.Random with the entropy reads modelled as fresh symbolic 32-byte blocks B1, B2, … and symbolic read errors. The data-dependent retry loop is unrolled %d times by path enumeration; the rest is induction on the iteration count, justified by what the enumerated paths show: the value stored on an exit in iteration k mentions only block Bk (no state is carried into the next iteration besides the tested value, which is zero on the retry edge). Obligations on every path: an exit in iteration k assumes [Bj mod n = 0] for all j<k and [Bk mod n != 0], and stores exactly Montgomery(Bk mod n) into the receiver (the single conditional subtraction is justified by the interval 2^256 < 2n; Fiat's < n precondition is proven by the guard-refined interval); a failed read panics before anything is stored; every read takes 32 bytes from crypto/rand.Reader.", unroll)
-	r.Trusted = []string{"io.ReadFull contract (fills the buffer or returns an error)", "crypto/rand.Reader is the system randomness source", "Fiat ToMontgomery leaf specification", "induction over loop iterations given state independence shown on the enumerated paths"}
+	r.Explanation = fmt.Sprintf("E1 on Scalar.Random with the entropy reads modelled as fresh symbolic 32-byte blocks B1, B2, … and symbolic read errors. The data-dependent retry loop is unrolled %d times by path enumeration; the rest is induction on the iteration count, whose step is checked (C18.induction): on the all-rejected path the complete abstract state (registers of every frame and every reachable object) before draw k+1 must equal the state before draw k with block indices shifted by one, so no counter, accumulator or stale buffer is carried from draw to draw. Obligations on every path: an exit in iteration k assumes [Bj mod n = 0] for all j<k and [Bk mod n != 0], and stores exactly Montgomery(Bk mod n) into the receiver (the single conditional subtraction is justified by the interval 2^256 < 2n; Fiat's < n precondition is proven by the guard-refined interval); a failed read panics before anything is stored; every read takes 32 bytes from crypto/rand.Reader.", unroll)
+	r.Trusted = []string{"io.ReadFull contract (fills the buffer or returns an error)", "crypto/rand.Reader is the system randomness source", "Fiat ToMontgomery leaf specification", "induction over loop iterations; its step (no state but the current block is carried from draw to draw) is checked by comparing the abstract states before consecutive draws"}
 	m, err := discoverModel(p)
 	if err != nil {
 		r.Undecided("C18.model", "layout", "", err.Error())
@@ -31,7 +32,7 @@ func C18(p *load.Prog, r *report.Report) {
 	pos := p.Pos(fn.Pos())
 	old := absint.FieldSym(FN, "old")
 	block := func(k int) *absint.Poly { return absint.EmbTerm(FN, os2ip(fmt.Sprintf("entropy#%d", k), 0, 32)) }
-	nexit, npanic, ncap := 0, 0, 0
+	nexit, npanic, ncap, ninduct := 0, 0, 0, 0
 	explore(p, absint.Config{LoopUnroll: unroll}, fn, func(it *absint.Interp) []absint.Value {
 		return []absint.Value{ptr(m.newScalar(it, "recv", old))}
 	}, func(res *absint.PathResult) {
@@ -52,6 +53,32 @@ func C18(p *load.Prog, r *report.Report) {
 				ncap++
 				// the retry edge: every block so far must be assumed zero mod n and every read ok
 				// (the cap is hit at the test that follows the last read, before that block's test is decided)
+				// the induction step: the state in which draw k+1 starts must be the state in which draw k started, with
+				// every block index moved up by one.  Anything else (an attempt counter, an accumulator, a buffer that
+				// keeps bytes of earlier blocks) is state carried from draw to draw, and the unrolled prefix says nothing
+				// about the iterations beyond it
+				ninduct++
+				if rs := it.ReadStates; len(rs) < 3 {
+					r.Undecided("C18.induction", fmt.Sprintf("retry after %d reads", reads), pos, "fewer than three draws on the retry path: the induction step cannot be compared")
+				} else if a, b := rs[len(rs)-2], rs[len(rs)-1]; a.Site != b.Site {
+					r.Undecided("C18.induction", fmt.Sprintf("retry after %d reads", reads), p.Pos(b.Site.Pos()), "consecutive draws happen at different call sites: the loop is not uniform")
+				} else {
+					sh := b.Shifted
+					diff := ""
+					if len(sh) != len(a.Lines) {
+						diff = fmt.Sprintf("%d state entries before draw %d, %d before draw %d", len(a.Lines), len(rs)-1, len(sh), len(rs))
+					}
+					for i := 0; i < len(sh) && i < len(a.Lines) && diff == ""; i++ {
+						if sh[i] != a.Lines[i] {
+							diff = fmt.Sprintf("before draw %d: %s; before draw %d: %s", len(rs)-1, clipStr(a.Lines[i], clipN), len(rs), clipStr(b.Lines[i], clipN))
+						}
+					}
+					if diff != "" {
+						r.Fail("C18.induction", fmt.Sprintf("retry after %d reads", reads), p.Pos(b.Site.Pos()), "state other than the block just drawn is carried from one draw to the next, so draws beyond the "+fmt.Sprint(unroll)+" analysed ones may behave differently (a bounded number of attempts falls through with a rejected value): "+diff)
+					} else {
+						r.OK("C18.induction", fmt.Sprintf("retry after %d reads", reads), fmt.Sprintf("the state before draw %d equals the state before draw %d with block indices shifted (%d entries compared)", len(rs), len(rs)-1, len(sh)))
+					}
+				}
 				for k := 1; k < reads; k++ {
 					z, dz := known(it, absint.ISZ(block(k)))
 					ok, dok := known(it, absint.SymBool(fmt.Sprintf("readok#%d", k)))
@@ -119,5 +146,20 @@ func C18(p *load.Prog, r *report.Report) {
 	r.Analysed["retry_edges_at_cap"] = ncap
 	r.RequireCount("C18.exits", "exit paths (one per unrolled iteration)", nexit, 2)
 	r.RequireCount("C18.panics", "panic paths (failed read)", npanic, 1)
+	r.RequireCount("C18.induction", "retry paths on which the induction step was compared", ninduct, 1)
 	r.RequireCount("C18.retry", "retry edge reached at the unrolling cap (the loop really loops)", ncap, 1)
 }
+
+func clipStr(s string, n int) string {
+	if len(s) > n {
+		return s[:n] + "…"
+	}
+	return s
+}
+
+var clipN = func() int {
+	if os.Getenv("SVDEBUGIND") != "" {
+		return 100000
+	}
+	return 160
+}()
